@@ -1,10 +1,307 @@
 /-
-C07 — CSV, Excel and AIF round trips preserve the isotherm (placeholder; theorems follow).
+C07 — CSV, Excel and AIF round trips preserve the isotherm: the part that is pyGAPS's own logic.
+
+Statements are about the executable model `PgVerif.Model.TextCodec`: `castString` (= `cast_string`, the reader of every metadata
+value in the three text formats) and the CSV metadata line codec `encodeLine`/`decodeLine`.
+  * the decision table of `castString`, one theorem per class with the exact guard in Python's order, and `cast_total`;
+  * what `str()` writes for `None`, booleans and non-negative integers is read back in the same class;
+    a NEGATIVE integer is read back as a float (finding S18 negint) — proved for every negative integer;
+  * out-of-domain witnesses;
+  * the line codec: exact characterisation of the accepted lines, round trip on the domain, refusal of a value containing the separator.
 -/
+import Mathlib.Tactic
 import PgVerif.Model.TextCodec
 
 namespace PgVerif.C07
 open PgVerif.Model.TextCodec
+
+/-! ### helper facts -/
+
+lemma isDigitC_eq (c : Char) : isDigitC c = c.isDigit := by
+  simp [isDigitC, Char.isDigit, Char.le_def]
+
+/-- a digit is none of the finitely many other characters the recognisers look for -/
+private lemma digit_ne {c d : Char} (hc : isDigitC c = true) (hd : isDigitC d = false) : c ≠ d := by
+  intro h; rw [h, hd] at hc; exact Bool.false_ne_true hc
+
+private lemma digit_lower {c : Char} (hc : isDigitC c = true) : lowerC c = c := by
+  unfold lowerC
+  rw [if_neg]
+  rintro ⟨h1, -⟩
+  simp only [isDigitC, Bool.and_eq_true, decide_eq_true_eq] at hc
+  exact absurd (Char.le_trans h1 hc.2) (by decide)
+
+private lemma digit_not_space {c : Char} (hc : isDigitC c = true) : isSpaceC c = false := by
+  by_contra h
+  rw [Bool.not_eq_false] at h
+  simp only [isSpaceC, Bool.or_eq_true, beq_iff_eq] at h
+  rcases h with ((((h | h) | h) | h) | h) | h <;> exact digit_ne hc (by decide) h
+
+/-- a non-empty string of digits -/
+def Digits (s : Str) : Prop := s ≠ [] ∧ ∀ c ∈ s, isDigitC c = true
+
+private lemma digits_lower {s : Str} (h : ∀ c ∈ s, isDigitC c = true) : lower s = s := by
+  unfold lower
+  conv_rhs => rw [← List.map_id s]
+  exact List.map_congr_left (fun c hc => digit_lower (h c hc))
+
+private lemma digits_numeric {s : Str} (h : Digits s) : isNumeric s = true := by
+  unfold isNumeric
+  rw [Bool.and_eq_true, Bool.not_eq_true', List.isEmpty_eq_false_iff, List.all_eq_true]
+  exact ⟨h.1, h.2⟩
+
+private lemma digits_ne_word {s : Str} (h : Digits s) (w : Str) (hw : ∀ c, w.head? = some c → isDigitC c = false) :
+    (lower s == w) = false := by
+  rw [digits_lower h.2, beq_eq_false_iff_ne]
+  intro e
+  obtain ⟨hne, hall⟩ := h
+  cases s with
+  | nil => exact hne rfl
+  | cons c t =>
+    have := hw c (by rw [← e]; rfl)
+    rw [hall c (by simp)] at this
+    exact Bool.noConfusion this
+
+private lemma digits_not_none {s : Str} (h : Digits s) : isNone s = false := by
+  unfold isNone
+  rw [Bool.or_eq_false_iff, List.isEmpty_eq_false_iff]
+  exact ⟨h.1, digits_ne_word h _ (by decide)⟩
+
+private lemma digits_not_bool {s : Str} (h : Digits s) : isBool s = false := by
+  unfold isBool
+  rw [Bool.or_eq_false_iff]
+  exact ⟨digits_ne_word h _ (by decide), digits_ne_word h _ (by decide)⟩
+
+private lemma digitsU_cons (c : Char) (t : Str) (hc : isDigitC c = true) (ht : ∀ x ∈ t, isDigitC x = true) :
+    digitsU (c :: t) = true := by
+  induction t generalizing c with
+  | nil => rw [digitsU.eq_2]; exact hc
+  | cons d t ih =>
+    have hd : isDigitC d = true := ht d (by simp)
+    have hne : d ≠ '_' := digit_ne hd (by decide)
+    have := ih d hd (fun x hx => ht x (by simp [hx]))
+    rw [digitsU.eq_4 c d t (fun _ _ h _ => hne h), hc, this]
+    rfl
+
+private lemma digits_digitsU {s : Str} (h : Digits s) : digitsU s = true := by
+  obtain ⟨hne, hall⟩ := h
+  cases s with
+  | nil => exact absurd rfl hne
+  | cons c t => exact digitsU_cons c t (hall c (by simp)) (fun x hx => hall x (by simp [hx]))
+
+private lemma splitAt1_none (p : Char → Bool) (s : Str) (h : ∀ c ∈ s, p c = false) : splitAt1 p s = none := by
+  induction s with
+  | nil => rfl
+  | cons c t ih =>
+    unfold splitAt1
+    rw [h c (by simp), ih (fun x hx => h x (by simp [hx]))]
+    rfl
+
+private lemma stripL_self (s : Str) (h : ∀ c, s.head? = some c → isSpaceC c = false) : stripL s = s := by
+  cases s with
+  | nil => rfl
+  | cons c t =>
+    unfold stripL
+    rw [h c rfl]
+    rfl
+
+/-- `strip` leaves alone a text with no blank at either end -/
+lemma strip_self (s : Str) (h1 : ∀ c, s.head? = some c → isSpaceC c = false)
+    (h2 : ∀ c, s.getLast? = some c → isSpaceC c = false) : strip s = s := by
+  unfold strip
+  rw [stripL_self s h1, stripL_self s.reverse (by rw [List.head?_reverse]; exact h2), List.reverse_reverse]
+
+private lemma stripL_length_le (s : Str) : (stripL s).length ≤ s.length := by
+  induction s with
+  | nil => exact le_rfl
+  | cons c t ih =>
+    unfold stripL
+    split_ifs
+    · exact le_trans ih (Nat.le_succ _)
+    · exact le_rfl
+
+private lemma stripL_length_lt (c : Char) (t : Str) (hc : isSpaceC c = true) : (stripL (c :: t)).length < (c :: t).length := by
+  unfold stripL
+  rw [if_pos hc]
+  exact Nat.lt_succ_of_le (stripL_length_le t)
+
+private lemma strip_length_le (s : Str) : (strip s).length ≤ (stripL s).length := by
+  unfold strip
+  rw [List.length_reverse]
+  exact le_trans (stripL_length_le _) (by rw [List.length_reverse])
+
+/-- converse of `strip_self`: a text that `strip` leaves alone has no blank at either end -/
+lemma strip_fixed (s : Str) (h : strip s = s) :
+    (∀ c, s.head? = some c → isSpaceC c = false) ∧ (∀ c, s.getLast? = some c → isSpaceC c = false) := by
+  have hhead : ∀ c, s.head? = some c → isSpaceC c = false := by
+    intro c hc
+    by_contra hsp
+    rw [Bool.not_eq_false] at hsp
+    cases s with
+    | nil => simp at hc
+    | cons d t =>
+      simp only [List.head?_cons, Option.some.injEq] at hc
+      subst hc
+      have h1 := strip_length_le (d :: t)
+      have h2 := stripL_length_lt d t hsp
+      rw [h] at h1
+      omega
+  refine ⟨hhead, ?_⟩
+  intro c hc
+  by_contra hsp
+  rw [Bool.not_eq_false] at hsp
+  have hrev : s.reverse.head? = some c := by rw [List.head?_reverse]; exact hc
+  unfold strip at h
+  rw [stripL_self s hhead] at h
+  cases hr : s.reverse with
+  | nil => rw [hr] at hrev; simp at hrev
+  | cons d t =>
+    rw [hr] at hrev h
+    simp only [List.head?_cons, Option.some.injEq] at hrev
+    subst hrev
+    have h2 := stripL_length_lt d t hsp
+    have h3 := congrArg List.length h
+    rw [List.length_reverse] at h3
+    have h4 : s.length = (d :: t).length := by rw [← hr, List.length_reverse]
+    omega
+
+/-- key and value both non-empty and without blanks at their ends: so is the line -/
+lemma strip_line (sep : Char) (k v : Str) (hk : k ≠ []) (hv : v ≠ []) (hsk : strip k = k) (hsv : strip v = v) :
+    strip (k ++ [sep] ++ v) = k ++ [sep] ++ v := by
+  apply strip_self
+  · intro c hc
+    cases k with
+    | nil => exact absurd rfl hk
+    | cons d t => exact (strip_fixed _ hsk).1 c (by simpa using hc)
+  · intro c hc
+    rw [List.getLast?_append_of_ne_nil _ hv] at hc
+    exact (strip_fixed _ hsv).2 c hc
+
+private lemma splitOn_exists (sep : Char) (s : Str) : ∃ h r, splitOn sep s = h :: r := by
+  induction s with
+  | nil => exact ⟨[], [], rfl⟩
+  | cons c t ih =>
+    obtain ⟨h, r, e⟩ := ih
+    by_cases hc : c = sep
+    · exact ⟨[], h :: r, by simp only [splitOn, e, hc, beq_self_eq_true, if_true]⟩
+    · exact ⟨c :: h, r, by simp only [splitOn, e, beq_iff_eq, hc, if_false]⟩
+
+private lemma splitOn_cons_sep (sep : Char) (t : Str) : splitOn sep (sep :: t) = [] :: splitOn sep t := by
+  obtain ⟨h, r, e⟩ := splitOn_exists sep t
+  simp only [splitOn, e, beq_self_eq_true, if_true]
+
+private lemma splitOn_cons_ne (sep c : Char) (t : Str) (hc : c ≠ sep) (h : Str) (r : List Str)
+    (e : splitOn sep t = h :: r) : splitOn sep (c :: t) = (c :: h) :: r := by
+  simp only [splitOn, e, beq_iff_eq, hc, if_false]
+
+/-- number of fields = number of separators + 1 -/
+lemma splitOn_length (sep : Char) (s : Str) : (splitOn sep s).length = s.count sep + 1 := by
+  induction s with
+  | nil => rfl
+  | cons c t ih =>
+    by_cases hc : c = sep
+    · subst hc
+      rw [splitOn_cons_sep, List.length_cons, ih, List.count_cons_self]
+    · obtain ⟨h, r, e⟩ := splitOn_exists sep t
+      rw [splitOn_cons_ne sep c t hc h r e, List.count_cons_of_ne hc, ← ih, e]
+      rfl
+
+/-- a text without separator is one field -/
+lemma splitOn_nosep (sep : Char) (a : Str) (h : sep ∉ a) : splitOn sep a = [a] := by
+  induction a with
+  | nil => rfl
+  | cons c t ih =>
+    have hc : c ≠ sep := fun e => h (by simp [e])
+    exact splitOn_cons_ne sep c t hc t [] (ih (fun hm => h (by simp [hm])))
+
+/-- the first separator ends the first field -/
+lemma splitOn_append (sep : Char) (a b : Str) (h : sep ∉ a) : splitOn sep (a ++ sep :: b) = a :: splitOn sep b := by
+  induction a with
+  | nil => exact splitOn_cons_sep sep b
+  | cons c t ih =>
+    have hc : c ≠ sep := fun e => h (by simp [e])
+    exact splitOn_cons_ne sep c _ hc t _ (ih (fun hm => h (by simp [hm])))
+
+lemma splitOn_pair (sep : Char) (a b : Str) (ha : sep ∉ a) (hb : sep ∉ b) : splitOn sep (a ++ [sep] ++ b) = [a, b] := by
+  rw [List.append_assoc, List.singleton_append, splitOn_append sep a b ha, splitOn_nosep sep b hb]
+
+private lemma splitOn_single_inv (sep : Char) (s b : Str) (h : splitOn sep s = [b]) : s = b ∧ sep ∉ b := by
+  induction s generalizing b with
+  | nil =>
+    simp only [splitOn, List.cons.injEq, and_true] at h
+    subst h; simp
+  | cons c t ih =>
+    by_cases hc : c = sep
+    · subst hc
+      rw [splitOn_cons_sep] at h
+      obtain ⟨h', r, e⟩ := splitOn_exists c t
+      rw [e] at h
+      simp at h
+    · obtain ⟨h', r, e⟩ := splitOn_exists sep t
+      rw [splitOn_cons_ne sep c t hc h' r e, List.cons.injEq] at h
+      obtain ⟨rfl, rfl⟩ := h
+      obtain ⟨rfl, hn⟩ := ih h' e
+      refine ⟨rfl, ?_⟩
+      intro hm
+      rcases List.mem_cons.1 hm with e | hm
+      · exact hc e.symm
+      · exact hn hm
+
+/-- exactly two fields iff exactly one separator, and then the fields are what is left and right of it -/
+lemma splitOn_pair_iff (sep : Char) (s a b : Str) : splitOn sep s = [a, b] ↔ s = a ++ [sep] ++ b ∧ sep ∉ a ∧ sep ∉ b := by
+  constructor
+  · intro h
+    induction s generalizing a with
+    | nil => simp [splitOn] at h
+    | cons c t ih =>
+      by_cases hc : c = sep
+      · subst hc
+        rw [splitOn_cons_sep, List.cons.injEq] at h
+        obtain ⟨rfl, h⟩ := h
+        obtain ⟨rfl, hn⟩ := splitOn_single_inv c t b h
+        exact ⟨rfl, by simp, hn⟩
+      · obtain ⟨h', r, e⟩ := splitOn_exists sep t
+        rw [splitOn_cons_ne sep c t hc h' r e, List.cons.injEq] at h
+        obtain ⟨rfl, rfl⟩ := h
+        obtain ⟨rfl, hn1, hn2⟩ := ih h' e
+        refine ⟨rfl, ?_, hn2⟩
+        intro hm
+        rcases List.mem_cons.1 hm with e | hm
+        · exact hc e.symm
+        · exact hn1 hm
+  · rintro ⟨rfl, ha, hb⟩
+    exact splitOn_pair sep a b ha hb
+
+private lemma numeric_digits {s : Str} (h : isNumeric s = true) : Digits s := by
+  unfold isNumeric at h
+  rw [Bool.and_eq_true, Bool.not_eq_true', List.isEmpty_eq_false_iff, List.all_eq_true] at h
+  exact h
+
+/-- what `str(n)` produces for a natural number: a non-empty string of ASCII digits -/
+lemma nat_digits (n : Nat) : Digits (toString n).toList := by
+  rw [Nat.toString_eq_repr, Nat.toList_repr]
+  refine ⟨Nat.toDigits_ne_nil, fun c hc => ?_⟩
+  rw [isDigitC_eq]
+  exact Nat.isDigit_of_mem_toDigits (by decide) (by decide) hc
+
+/-- result classes of `cast_string` -/
+inductive Class
+  | none | bool | int | float | list | str
+  deriving DecidableEq, Repr
+
+def classOf : Cast → Class
+  | .none => .none | .bool _ => .bool | .int _ => .int | .float _ => .float | .list _ => .list | .str _ => .str
+
+/-- the exact guard of each class, in Python's order of tests -/
+def Guard : Class → Str → Prop
+  | .none, s => isNone s = true
+  | .bool, s => isNone s = false ∧ isBool s = true
+  | .int, s => isNone s = false ∧ isBool s = false ∧ isNumeric s = true
+  | .float, s => isNone s = false ∧ isBool s = false ∧ isNumeric s = false ∧ isFloat s = true
+  | .list, s => isNone s = false ∧ isBool s = false ∧ isNumeric s = false ∧ isFloat s = false ∧ isList s = true
+  | .str, s => isNone s = false ∧ isBool s = false ∧ isNumeric s = false ∧ isFloat s = false ∧ isList s = false
+
+/-! ### theorems -/
 
 /-- an in-domain text is read back as itself -/
 theorem cast_text_identity (sep : Char) (s : Str) (h : inCsvDomain sep s = true) : castString s = .str s := by
@@ -12,5 +309,235 @@ theorem cast_text_identity (sep : Char) (s : Str) (h : inCsvDomain sep s = true)
   simp only [Bool.and_eq_true, Bool.not_eq_true'] at h
   obtain ⟨⟨⟨⟨⟨⟨⟨⟨h1, h2⟩, h3⟩, h4⟩, h5⟩, _⟩, _⟩, _⟩, _⟩ := h
   simp [castString, h1, h2, h3, h4, h5]
+
+/-! #### the decision table -/
+
+theorem cast_none_iff (s : Str) : castString s = .none ↔ isNone s = true := by
+  unfold castString; split_ifs <;> simp_all
+
+theorem cast_bool_iff (s : Str) (b : Bool) :
+    castString s = .bool b ↔ isNone s = false ∧ isBool s = true ∧ b = (lower s == "true".toList) := by
+  unfold castString; split_ifs <;> simp_all <;> tauto
+
+theorem cast_int_iff (s : Str) :
+    castString s = .int s ↔ isNone s = false ∧ isBool s = false ∧ isNumeric s = true := by
+  unfold castString; split_ifs <;> simp_all
+
+theorem cast_float_iff (s : Str) :
+    castString s = .float s ↔ isNone s = false ∧ isBool s = false ∧ isNumeric s = false ∧ isFloat s = true := by
+  unfold castString; split_ifs <;> simp_all
+
+theorem cast_list_iff (s : Str) :
+    castString s = .list s ↔
+      isNone s = false ∧ isBool s = false ∧ isNumeric s = false ∧ isFloat s = false ∧ isList s = true := by
+  unfold castString; split_ifs <;> simp_all
+
+theorem cast_str_iff (s : Str) :
+    castString s = .str s ↔
+      isNone s = false ∧ isBool s = false ∧ isNumeric s = false ∧ isFloat s = false ∧ isList s = false := by
+  unfold castString; split_ifs <;> simp_all
+
+/-- the class of the result is decided by the guards, in Python's order -/
+theorem cast_class (s : Str) (c : Class) : classOf (castString s) = c ↔ Guard c s := by
+  cases c <;> unfold castString <;> split_ifs <;> simp_all [classOf, Guard]
+
+/-- every string falls in exactly one class -/
+theorem cast_total (s : Str) : ∃! c, Guard c s :=
+  ⟨classOf (castString s), (cast_class s _).1 rfl, fun c hc => ((cast_class s c).2 hc).symm⟩
+
+/-- whatever the class, the text handed on is the text read -/
+theorem cast_carries_text (s t : Str)
+    (h : castString s = .int t ∨ castString s = .float t ∨ castString s = .list t ∨ castString s = .str t) : t = s := by
+  unfold castString at h
+  split_ifs at h <;> simp_all
+
+/-- the recognisers overlap less than the order of tests suggests: a numeric string is never `none` nor a boolean, so
+`isNumeric` alone decides the integer class -/
+theorem cast_int_iff_numeric (s : Str) : castString s = .int s ↔ isNumeric s = true := by
+  rw [cast_int_iff]
+  exact ⟨fun h => h.2.2, fun h => ⟨digits_not_none (numeric_digits h), digits_not_bool (numeric_digits h), h⟩⟩
+
+/-! #### what `str()` writes is read back -/
+
+theorem cast_bool_roundtrip :
+    castString "True".toList = .bool true ∧ castString "False".toList = .bool false := by decide
+
+theorem cast_none_roundtrip : castString "None".toList = .none := by decide
+
+theorem cast_digits (s : Str) (h : Digits s) : castString s = .int s := by
+  unfold castString
+  rw [digits_not_none h, digits_not_bool h, digits_numeric h]
+  rfl
+
+theorem cast_nat_roundtrip (n : Nat) : castString (toString n).toList = .int (toString n).toList :=
+  cast_digits _ (nat_digits n)
+
+/-- finding S18 (negint), general form: a minus sign followed by digits is not `isnumeric`, and is in the float grammar -/
+theorem cast_neg_digits (s : Str) (h : Digits s) : castString ('-' :: s) = .float ('-' :: s) := by
+  have hlow : lower ('-' :: s) = '-' :: s := by
+    show lowerC '-' :: lower s = _
+    rw [digits_lower h.2]; rfl
+  have hnone : isNone ('-' :: s) = false := by
+    unfold isNone
+    rw [hlow]
+    rfl
+  have hbool : isBool ('-' :: s) = false := by
+    unfold isBool
+    rw [hlow]
+    rfl
+  have hnum : isNumeric ('-' :: s) = false := by
+    unfold isNumeric
+    rw [List.all_cons, show isDigitC '-' = false by decide]
+    rfl
+  have hstrip : strip ('-' :: s) = '-' :: s := by
+    apply strip_self
+    · intro c hc
+      simp only [List.head?_cons, Option.some.injEq] at hc
+      subst hc; decide
+    · intro c hc
+      rw [List.getLast?_cons_of_ne_nil h.1] at hc
+      exact digit_not_space (h.2 c (List.mem_of_getLast? hc))
+  have hfloat : isFloat ('-' :: s) = true := by
+    unfold isFloat
+    simp only [hstrip, unsigned]
+    rw [digits_ne_word h _ (by decide), digits_ne_word h _ (by decide), digits_ne_word h _ (by decide)]
+    rw [splitAt1_none _ s (fun c hc => by
+      rw [Bool.or_eq_false_iff, beq_eq_false_iff_ne, beq_eq_false_iff_ne]
+      exact ⟨digit_ne (h.2 c hc) (by decide), digit_ne (h.2 c hc) (by decide)⟩)]
+    simp only [Bool.or_self, Bool.false_eq_true, if_false]
+    unfold isMantissa
+    rw [splitAt1_none _ s (fun c hc => by
+      rw [beq_eq_false_iff_ne]
+      exact digit_ne (h.2 c hc) (by decide))]
+    exact digits_digitsU h
+  unfold castString
+  rw [hnone, hbool, hnum, hfloat]
+  rfl
+
+/-- finding S18 (negint): the text of a negative integer is read back as a float, not an integer.
+(`0 < n` is only there because python never writes `-0` for an int; the statement holds for `n = 0` too.) -/
+theorem negative_int_becomes_float (n : Nat) (_hn : 0 < n) :
+    castString ('-' :: (toString n).toList) = .float ('-' :: (toString n).toList) :=
+  cast_neg_digits _ (nat_digits n)
+
+/-- the same on Lean's own `Int` printing, which coincides with python's `str` on integers -/
+theorem negative_int_becomes_float' (z : Int) (hz : z < 0) :
+    castString (toString z).toList = .float (toString z).toList := by
+  have e : (toString z).toList = '-' :: (toString (-z).toNat).toList := by
+    rw [Int.toString_eq_repr, Int.repr_eq_if, if_neg (not_le.2 hz), String.toList_append, Nat.toString_eq_repr]
+    rfl
+  rw [e]
+  exact cast_neg_digits _ (nat_digits _)
+
+/-- ... while a non-negative `Int` is read back as an integer -/
+theorem cast_nonneg_int_roundtrip (z : Int) (hz : 0 ≤ z) :
+    castString (toString z).toList = .int (toString z).toList := by
+  have e : (toString z).toList = (toString z.toNat).toList := by
+    rw [Int.toString_eq_repr, Int.repr_eq_if, if_pos hz, Nat.toString_eq_repr]
+  rw [e]
+  exact cast_nat_roundtrip _
+
+theorem negative_int_becomes_float_3 : castString "-3".toList = .float "-3".toList := by decide
+
+theorem negative_int_becomes_float_31 : castString "-31".toList = .float "-31".toList := by decide
+
+/-! #### out-of-domain witnesses -/
+
+theorem witness_exponent : castString "1e5".toList = .float "1e5".toList := by decide
+theorem witness_empty : castString "".toList = .none := by decide
+theorem witness_leading_blank : castString " none".toList ≠ .none := by decide
+theorem witness_leading_blank_value : castString " none".toList = .str " none".toList := by decide
+theorem witness_list : castString "[1 2]".toList = .list "[1 2]".toList := by decide
+theorem witness_grouping : castString "1_000".toList = .float "1_000".toList := by decide
+theorem witness_blank_number : castString " 12".toList = .float " 12".toList := by decide
+theorem witness_nan_word : castString "NaN".toList = .float "NaN".toList := by decide
+theorem witness_bool_case : castString "TRUE".toList = .bool true := by decide
+
+/-! #### the metadata line codec -/
+
+/-- the reader accepts a line iff, once stripped, it is `key<sep>value` with no further separator — and then returns exactly that
+key and value -/
+theorem decodeLine_eq_some_iff (sep : Char) (line k v : Str) :
+    decodeLine sep line = some (k, v) ↔ strip line = k ++ [sep] ++ v ∧ sep ∉ k ∧ sep ∉ v := by
+  rw [← splitOn_pair_iff]
+  unfold decodeLine
+  split
+  · rename_i k' v' h
+    rw [h]
+    simp
+  · rename_i h
+    constructor
+    · intro h'; exact absurd h' (by simp)
+    · intro h'; exact absurd h' (h k v)
+
+/-- the line is refused iff the stripped line does not contain exactly one separator -/
+theorem decodeLine_eq_none_iff (sep : Char) (line : Str) :
+    decodeLine sep line = none ↔ (strip line).count sep ≠ 1 := by
+  have hl := splitOn_length sep (strip line)
+  unfold decodeLine
+  split
+  · rename_i k' v' h
+    rw [h] at hl
+    simp only [List.length_cons, List.length_nil] at hl
+    simp only [reduceCtorEq, false_iff, not_not]
+    omega
+  · rename_i h
+    simp only [true_iff]
+    intro hc
+    rw [hc] at hl
+    match hs : splitOn sep (strip line), hl with
+    | [a, b], _ => exact h a b hs
+
+/-- a metadata line written by the library is read back as the same key and value -/
+theorem decodeLine_encodeLine' (sep : Char) (k v : Str) (hk : sep ∉ k) (hv : sep ∉ v)
+    (hs : strip (k ++ [sep] ++ v) = k ++ [sep] ++ v) : decodeLine sep (encodeLine sep k v) = some (k, v) := by
+  rw [decodeLine_eq_some_iff]
+  exact ⟨hs, hk, hv⟩
+
+/-- the same with the whole stated domain (no separator, newline or carriage return in key or value; the newline clauses are what
+makes the line a line and are not used by the per-line reader) -/
+theorem decodeLine_encodeLine (sep : Char) (k v : Str) (hk : sep ∉ k) (hv : sep ∉ v)
+    (_hk_nl : '\n' ∉ k ∧ '\r' ∉ k) (_hv_nl : '\n' ∉ v ∧ '\r' ∉ v)
+    (hs : strip (k ++ [sep] ++ v) = k ++ [sep] ++ v) : decodeLine sep (encodeLine sep k v) = some (k, v) :=
+  decodeLine_encodeLine' sep k v hk hv hs
+
+/-- a value the format cannot carry is refused: if the value (or the key) contains the separator the line is not read -/
+theorem decodeLine_three_fields_refused (sep : Char) (k v : Str) (hv : sep ∈ v)
+    (hs : strip (k ++ [sep] ++ v) = k ++ [sep] ++ v) : decodeLine sep (encodeLine sep k v) = none := by
+  rw [decodeLine_eq_none_iff]
+  unfold encodeLine
+  rw [hs, List.count_append, List.count_append, List.count_singleton_self]
+  have : 0 < v.count sep := List.count_pos_iff.2 hv
+  omega
+
+/-- the hypothesis `strip line = line` of the refusal theorem is needed: with a blank separator (tab) a trailing separator in the
+value is stripped away and the line is ACCEPTED with an altered value (out of domain: the value ends in a blank) -/
+theorem decodeLine_blank_sep_value_altered :
+    decodeLine '\t' (encodeLine '\t' "a".toList "b\t".toList) = some ("a".toList, "b".toList) := by decide
+
+/-- key and value both in the stated text domain: the line is read back as the same key and value ... -/
+theorem decodeLine_encodeLine_inCsvDomain (sep : Char) (k v : Str) (hk : inCsvDomain sep k = true)
+    (hv : inCsvDomain sep v = true) : decodeLine sep (encodeLine sep k v) = some (k, v) := by
+  unfold inCsvDomain at hk hv
+  simp only [Bool.and_eq_true, Bool.not_eq_true', beq_iff_eq] at hk hv
+  obtain ⟨⟨⟨⟨⟨⟨⟨⟨hk1, _⟩, _⟩, _⟩, _⟩, hk6⟩, _⟩, _⟩, hk9⟩ := hk
+  obtain ⟨⟨⟨⟨⟨⟨⟨⟨hv1, _⟩, _⟩, _⟩, _⟩, hv6⟩, _⟩, _⟩, hv9⟩ := hv
+  have hkne : k ≠ [] := by
+    unfold isNone at hk1
+    rw [Bool.or_eq_false_iff, List.isEmpty_eq_false_iff] at hk1
+    exact hk1.1
+  have hvne : v ≠ [] := by
+    unfold isNone at hv1
+    rw [Bool.or_eq_false_iff, List.isEmpty_eq_false_iff] at hv1
+    exact hv1.1
+  have hks : sep ∉ k := fun hm => by rw [List.contains_iff_mem.2 hm] at hk6; exact Bool.noConfusion hk6
+  have hvs : sep ∉ v := fun hm => by rw [List.contains_iff_mem.2 hm] at hv6; exact Bool.noConfusion hv6
+  exact decodeLine_encodeLine' sep k v hks hvs (strip_line sep k v hkne hvne hk9 hv9)
+
+/-- ... and the value is then cast back to the same text: the whole path of a text metadata entry through a CSV line -/
+theorem csv_text_metadata_roundtrip (sep : Char) (k v : Str) (hk : inCsvDomain sep k = true)
+    (hv : inCsvDomain sep v = true) :
+    (decodeLine sep (encodeLine sep k v)).map (fun kv => (kv.1, castString kv.2)) = some (k, .str v) := by
+  rw [decodeLine_encodeLine_inCsvDomain sep k v hk hv, Option.map_some, cast_text_identity sep v hv]
 
 end PgVerif.C07
